@@ -15,6 +15,7 @@ package main
 //   output       level and scale of the bootstrapped ciphertext
 // Probes (property predicates evaluated on the real code):
 //   shallowcopy_no_shared_scratch (reflection), shallowcopy_interleaved, shallowcopy_concurrent (thorough),
+//   default_lists_covered + ties default_list/default_literal/default_source/default_announced (c18_defaults.go),
 //   mod1_step (c18_mod1.go), input_unchanged, evaluate_scale_precision,
 //   key_levels_sufficient, inadmissible_rejected, sparse_key_confined, sparse_secret_recovered, keys_sufficient, required_stable, output_level_scale,
 //   bootstrap_precision (measured), c2s_s2c_inverse (measured), batch_bootstrap (measured),
@@ -64,6 +65,7 @@ func genC18(c *Ctx) {
 	c18NoP(c)
 	c18C2SS2C(c)
 	c18Mod1Step(c)
+	c18DefaultTable(c)
 	c18GroupedPatched(c)
 	for _, cfg := range c18Configs(c) {
 		if only := os.Getenv("C18_ONLY"); only != "" && only != cfg.name {
@@ -424,6 +426,33 @@ func c18GalArgs(p bootstrapping.Parameters) string {
 		IVec(p.CoeffsToSlotsParameters.Levels), IVec(p.SlotsToCoeffsParameters.Levels), p.CoeffsToSlotsParameters.LogBSGSRatio)
 }
 
+// c18Announced: "Precision : x bits" of the doc comment of every shipped default (tied to the source by `default_announced`)
+var c18Announced = map[string]float64{
+	"sparse0": 26.6, "sparse1": 32.1, "sparse2": 19.1, "sparse3": 15.4,
+	"dense0": 23.8, "dense1": 29.8, "dense2": 17.8, "dense3": 17.3,
+}
+
+// margin between the announced precision and what the reduced ring must still reach
+const c18AnnouncedMargin = 3.0
+
+type c18Shipped struct {
+	name string
+	list string
+	idx  int
+	s    ckks.ParametersLiteral
+	b    bootstrapping.ParametersLiteral
+}
+
+func c18ShippedDefaults() (all []c18Shipped) {
+	for i, d := range bootstrapping.DefaultParametersSparse {
+		all = append(all, c18Shipped{fmt.Sprintf("sparse%d", i), "DefaultParametersSparse", i, d.SchemeParams, d.BootstrappingParams})
+	}
+	for i, d := range bootstrapping.DefaultParametersDense {
+		all = append(all, c18Shipped{fmt.Sprintf("dense%d", i), "DefaultParametersDense", i, d.SchemeParams, d.BootstrappingParams})
+	}
+	return
+}
+
 func c18Defaults(c *Ctx) {
 	// the 8 exported default literals, unmodified (no key generation: only the parameter layout and
 	// the list of Galois elements the helper announces; conjugation is what GenEvaluationKeys appends).
@@ -674,6 +703,7 @@ type c18Cfg struct {
 	batch     int                                                       // size of a BootstrapMany batch of sparse ciphertexts (0 = none)
 	thorough  bool                                                      // only in the thorough tier
 	ctSlotsLo bool                                                      // also try ciphertexts with fewer slots
+	announced float64                                                   // documented precision of a shipped default (bits), 0 = none
 }
 
 func c18Configs(c *Ctx) []c18Cfg {
@@ -734,18 +764,9 @@ func c18Configs(c *Ctx) []c18Cfg {
 		out = append(out, c18Cfg{name: fmt.Sprintf("slots%d", ls), res: r, btp: b, ratioAdj: adjSlots, minPrec: 12, batch: 2})
 	}
 
-	// 8.. the other shipped default literals, reduced ring, two residual primes
-	shipped := []struct {
-		name string
-		s    ckks.ParametersLiteral
-		b    bootstrapping.ParametersLiteral
-	}{
-		{"N16QP1547H192H32", bootstrapping.N16QP1547H192H32.SchemeParams, bootstrapping.N16QP1547H192H32.BootstrappingParams},
-		{"N16QP1553H192H32", bootstrapping.N16QP1553H192H32.SchemeParams, bootstrapping.N16QP1553H192H32.BootstrappingParams},
-		{"N15QP768H192H32", bootstrapping.N15QP768H192H32.SchemeParams, bootstrapping.N15QP768H192H32.BootstrappingParams},
-		{"N16QP1788H32768H32", bootstrapping.N16QP1788H32768H32.SchemeParams, bootstrapping.N16QP1788H32768H32.BootstrappingParams},
-	}
-	for i, d := range shipped {
+	// 8.. EVERY shipped default literal (all entries of DefaultParametersSparse and DefaultParametersDense), reduced
+	// ring, two residual primes, secret weight capped at N/2; precision against the announced one (c18Announced)
+	for _, d := range c18ShippedDefaults() {
 		r := d.s
 		r.LogN = logN
 		r.LogQ = r.LogQ[:2]
@@ -755,11 +776,15 @@ func c18Configs(c *Ctx) []c18Cfg {
 		b := d.b
 		b.LogN = utils.Pointy(logN)
 		adj := adjSlots
-		if d.name == "N15QP768H192H32" {
+		if r.LogQ[0] < 40 {
 			adj = nil // Q[0] has 33 bits for a scale of 2^25: no room for a larger message ratio at level 0
 		}
-		out = append(out, c18Cfg{name: d.name, res: r, btp: b, ratioAdj: adj, minPrec: 10, thorough: i >= 3 && os.Getenv("C18_ALL") == ""})
+		out = append(out, c18Cfg{name: "shipped_" + d.name, res: r, btp: b, ratioAdj: adj, announced: c18Announced[d.name]})
 	}
+
+	// 8a. sine approximation with the DEFAULT double angle (3) left in the literal: documented as ignored for the sine
+	out = append(out, c18Cfg{name: "mod1_sin", res: base(), btp: bootstrapping.ParametersLiteral{LogN: utils.Pointy(logN),
+		Mod1Type: mod1.SinContinuous, Mod1Degree: utils.Pointy(127), K: utils.Pointy(12)}, ratioAdj: adj16, minPrec: 20})
 
 	// 8b. Q[0] smaller than the EvalMod scale: ModUp's message-scaling block runs (scalar = 2^60/2^55 = 32,
 	// resp. 2^10); with and without encapsulation, same ring and ring switch; with a 50-bit Q[0] and the
@@ -880,6 +905,11 @@ func c18Configs(c *Ctx) []c18Cfg {
 // ------------------------------------------------------------------ the pipeline for one configuration
 
 func c18MinPrec(cfg c18Cfg, res ckks.Parameters) float64 {
+	if cfg.announced != 0 {
+		// announced for 2^15 (2^14) slots; measured at HEAD on the reduced rings (LogN 10 and 12, message ratio enlarged as
+		// the package tests do): 1 to 4 bits ABOVE the announced value for each of the eight sets
+		return cfg.announced - c18AnnouncedMargin
+	}
 	if cfg.minPrec != 0 {
 		return cfg.minPrec
 	}
